@@ -382,6 +382,8 @@ def correspondence(ctx):
             return dict(status="err", error=f"{len(calls)}-write-calls"), None
         return _impl_record(calls[0]), calls[0]
 
+    sampled_kinds = set()
+
     def export_case(desc, line, impl, tol, nontrivial):
         def h(ans, desc=desc, impl=impl, tol=tol):
             try:
@@ -393,8 +395,10 @@ def correspondence(ctx):
             if d:
                 res.disagree("export record: " + d, case=desc, impl_error=impl.get("message"))
         add(line, h)
+        skey = (desc.get("src"), nontrivial)
         res.case(("export",) + tuple(desc.values()), nontrivial=nontrivial,
-                 sample=dict(kind="export", **desc, impl_status=impl.get("error", "ok")))
+                 sample=None if skey in sampled_kinds else dict(kind="export", **desc, impl_status=impl.get("error", "ok")))
+        sampled_kinds.add(skey)
 
     grids = _grids(ctx, ctx.pick(8, 24))
     exts = [".msh", ".vtu", ".ply", ".obj"]
@@ -571,7 +575,7 @@ def correspondence(ctx):
             add(" ".join(t), h)
             res.case(("import", name, var, tuple(b[0] for b in blocks)),
                      nontrivial=len(blocks) > 1 or var in ("phys0+geom", "phys0-tri+geom", "geom", "phys0"),
-                     sample=dict(kind="import", **desc, impl_status=impl.get("error", "ok")) if it < 2 else None)
+                     sample=dict(kind="import", **desc, impl_status=impl.get("error", "ok")) if it in (4, 6) else None)
             res.count("import_cases")
     finally:
         meshio.read = saved_read
@@ -744,7 +748,7 @@ def oracle(ctx, deep=False):
                                      "the model says import_grid ignores 'domain_index'")
         # (b) grid functions: data read back with meshio == transformed evaluate_on_*
         ascii_msh_ok = _meshio_ascii_msh_data_ok(tmp)
-        res.stats["meshio_reads_own_ascii_msh_data"] = ascii_msh_ok
+        res.stats["meshio_reads_own_ascii_msh_data"] = "yes" if ascii_msh_ok else "no (meshio 5.3.5 + numpy 2 writes np.float64(...) reprs)"
         spaces = SPACES[:5 if deep else 3]
         fgrids = [g for g in grids if 2 <= g[2].shape[1] <= 12][:4 if deep else 2]
         formats = [(".msh", True), (".msh", False), (".vtu", True), (".vtu", False), (".ply", True)]
